@@ -23,8 +23,97 @@ func (c cfgGetter) CertManager() cert.TlsConfig { return c.m }
 // executeForward exercises "direct forward address first" with a real loopback TCP socket
 // (ConnectDirectly calls net.Dial), outside any bubble. Value oracle only: which endpoint
 // received the marker bytes. Slowness is inconclusive.
+// executeForwardStarted: a real SocketListener with a forward address, started through
+// Start(); local connections right after the start and 6 s later must all be served by the
+// forward address (reachable the whole time), none through the upstream.
+func executeForwardStarted() (kind, detail string) {
+	w, err := world.New(world.Options{Carrier: "stream", Channels: []string{"x"}, Keep: true})
+	if err != nil {
+		return "setup", err.Error()
+	}
+	var mu sync.Mutex
+	var direct []byte
+	ln, err := net.Listen("tcp", "127.0.0.1:0")
+	if err != nil {
+		return "slow", err.Error()
+	}
+	defer ln.Close()
+	go func() {
+		for {
+			c, err := ln.Accept()
+			if err != nil {
+				return
+			}
+			go func() {
+				buf := make([]byte, 4096)
+				for {
+					n, err := c.Read(buf)
+					mu.Lock()
+					direct = append(direct, buf[:n]...)
+					mu.Unlock()
+					if err != nil {
+						return
+					}
+				}
+			}()
+		}
+	}()
+	pl, err := net.Listen("tcp", "127.0.0.1:0")
+	if err != nil {
+		return "slow", err.Error()
+	}
+	port := pl.Addr().(*net.TCPAddr).Port
+	pl.Close()
+	l := &listener.SocketListener{}
+	l.Name = "x"
+	l.Address = addr.MustParseAddress(fmt.Sprintf("tcp://127.0.0.1:%d", port))
+	fa := addr.MustParseAddress("tcp://" + ln.Addr().String())
+	l.Forward = &fa
+	if err := l.Start(w.Ups, cfgGetter{&w.CliCfg}); err != nil {
+		return "slow", "listener start: " + err.Error()
+	}
+	defer l.Shutdown()
+	defer w.Ups.Shutdown()
+	want := ""
+	for i, wait := range []time.Duration{0, 6 * time.Second, time.Second} {
+		time.Sleep(wait)
+		marker := fmt.Sprintf("FORWARD-%d;", i)
+		want += marker
+		c, err := net.DialTimeout("tcp", fmt.Sprintf("127.0.0.1:%d", port), 5*time.Second)
+		if err != nil {
+			return "slow", "dial listener: " + err.Error()
+		}
+		c.Write([]byte(marker))
+		deadline := time.Now().Add(20 * time.Second)
+		for time.Now().Before(deadline) {
+			mu.Lock()
+			d := string(direct)
+			mu.Unlock()
+			up := w.Front.Dials
+			if d == want || up > 0 {
+				break
+			}
+			time.Sleep(5 * time.Millisecond)
+		}
+		c.Close()
+		mu.Lock()
+		d := string(direct)
+		mu.Unlock()
+		if w.Front.Dials > 0 {
+			return "forward-not-first", fmt.Sprintf("local connection %d (%v after the previous one): a reachable forward address was given but the upstream was used (direct endpoint has %q, upstream dials=%d)", i+1, wait, d, w.Front.Dials)
+		}
+		if d != want {
+			return "slow", fmt.Sprintf("direct endpoint got %q, want %q", d, want)
+		}
+	}
+	return "", ""
+}
+
 func executeForward(mode string) (kind, detail string) {
 	bubble.SetupLogging()
+	if mode == "forward:started-listener-later" {
+		return executeForwardStarted()
+	}
 	w, err := world.New(world.Options{Carrier: "stream", Channels: []string{"x"}, Keep: true})
 	if err != nil {
 		return "setup", err.Error()
@@ -118,7 +207,7 @@ func executeForward(mode string) (kind, detail string) {
 
 func forwardCases(r *mc.Run, base int) {
 	idx := base
-	for _, mode := range []string{"forward:absent", "forward:reachable", "forward:refused"} {
+	for _, mode := range []string{"forward:absent", "forward:reachable", "forward:refused", "forward:started-listener-later"} {
 		if r.Mine(idx) {
 			kind, detail := executeForward(mode)
 			c := Case{List: []string{mode}, Concurrent: 1, Loss: "none"}
